@@ -14,6 +14,7 @@ func (s *Server) configHandlerFunc(w http.ResponseWriter, r *http.Request) {
 	body, err := json.MarshalIndent(s.Cfg, "", "  ")
 	if err != nil {
 		http.Error(w, err.Error(), http.StatusInternalServerError)
+		return
 	}
 	w.Header().Set("Content-Type", "application/json")
 	_, _ = w.Write(body)
